@@ -159,6 +159,7 @@ func (rp *ResourcePool) closeIdleResources() {
 			// stop early if we don't get anything new from the pool
 			return
 		}
+		verifStep("closeIdle.taken")
 
 		if wrapper.resource != nil && idleTimeout > 0 && time.Until(wrapper.timeUsed.Add(idleTimeout)) < 0 {
 			wrapper.resource.Close()
@@ -218,6 +219,7 @@ func (rp *ResourcePool) get(ctx context.Context) (resource Resource, err error) 
 	if !ok {
 		return nil, ErrClosed
 	}
+	verifStep("get.received")
 
 	if wrapper.resource == nil {
 		wrapper.resource, err = rp.createResourceWithRetry(ctx)
@@ -227,6 +229,7 @@ func (rp *ResourcePool) get(ctx context.Context) (resource Resource, err error) 
 		}
 		rp.active.Add(1)
 	}
+	verifStep("get.beforeAccounting")
 	rp.available.Add(-1)
 	rp.inUse.Add(1)
 	return wrapper.resource, err
@@ -310,11 +313,13 @@ func (rp *ResourcePool) Put(resource Resource) {
 	} else {
 		rp.active.Add(-1)
 	}
+	verifStep("put.beforeSend")
 	select {
 	case rp.resources <- wrapper:
 	default:
 		panic(errors.New("attempt to Put into a full ResourcePool"))
 	}
+	verifStep("put.afterSend")
 	rp.inUse.Add(-1)
 	rp.available.Add(1)
 }
@@ -354,9 +359,11 @@ func (rp *ResourcePool) ScaleCapacity(capacity int) error {
 			break
 		}
 	}
+	verifStep("scale.afterCAS")
 
 	if capacity < oldcap {
 		for i := 0; i < oldcap-capacity; i++ {
+			verifStep("scale.shrinkLoop")
 			wrapper := <-rp.resources
 			if wrapper.resource != nil {
 				wrapper.resource.Close()
@@ -366,11 +373,13 @@ func (rp *ResourcePool) ScaleCapacity(capacity int) error {
 		}
 	} else {
 		for i := 0; i < capacity-oldcap; i++ {
+			verifStep("scale.growLoop")
 			rp.resources <- resourceWrapper{}
 			rp.available.Add(1)
 		}
 	}
 	if capacity == 0 {
+		verifStep("scale.beforeClose")
 		close(rp.resources)
 	}
 	return nil
@@ -394,6 +403,7 @@ func (rp *ResourcePool) AddCapacityResource() (resourceWrapper, bool) {
 	if capacity < 0 || capacity >= int(rp.maxCapacity.Get()) {
 		return resourceWrapper{}, false
 	}
+	verifStep("addCapacity.checked")
 	rp.capacity.Add(1)
 	rp.available.Add(1)
 	return resourceWrapper{}, true
@@ -407,6 +417,7 @@ func (rp *ResourcePool) scaleInResources() {
 		select {
 		case rp.scaleInTodo <- 0:
 			go func() {
+				verifStep("scaleIn.beforeScale")
 				rp.ScaleCapacity(int(rp.capacity.Get()) - 1)
 				<-rp.scaleInTodo
 			}()
